@@ -111,6 +111,7 @@ func (r *replayer) binFor(pkgDir string) (string, error) {
 func scriptJSON(w map[string]string, model map[string]smt.ModelVal) []byte {
 	vals := map[string]interface{}{}
 	for k, v := range model {
+		k = bareName(k)
 		switch v.Sort.K {
 		case smt.KBool:
 			vals[k] = v.B
